@@ -18,7 +18,7 @@ from corankco.element import Element
 try:
     import cplex
 except ImportError:
-    pass
+    cplex = None
 
 
 class ExactAlgorithmCplex(ExactAlgorithmBase, PairwiseBasedAlgorithm):
@@ -44,6 +44,9 @@ class ExactAlgorithmCplex(ExactAlgorithmBase, PairwiseBasedAlgorithm):
         :param optimize: Boolean for whether to check necessary conditions in order to add constraints. Default is True.
         WARNING: if optimize = True, then, we cannot ensure that all the optimal consensus will be returned
         """
+        if cplex is None:
+            raise ModuleNotFoundError("No module named 'cplex': ExactAlgorithmCplex needs CPLEX to be installed. "
+                                      "ExactAlgorithm (or ExactAlgorithmPulp) can be used with a free solver instead")
         ExactAlgorithmBase.__init__(self, optimize)
 
     def compute_consensus_rankings(
